@@ -22,6 +22,46 @@ type inst struct {
 
 func objA(i int64) rv { return vObj("a", vInt(i)) }
 
+func objABt() ast.Type           { return tObj("a", tInt(), "b", tStr()) }
+func objAB(i int64, s string) rv { return vObj("a", vInt(i), "b", vStr(s)) }
+
+// zeroOf is the value a runtime has to make up for a type when nothing else is said (reference
+// model of the start value of a singleton): 0, 0.0, false, "", the empty list / any-object, none,
+// objects field by field. A range, a function, `any` and objects holding one have no entry (ok=false): the
+// two runtimes start a range singleton at different ranges (0..0 and 0..1), which is not a
+// statement about members.
+func zeroOf(t ast.Type) (rv, bool) {
+	switch tt := t.(type) {
+	case ast.IntType:
+		return vInt(0), true
+	case ast.FloatType:
+		return vFloat(0), true
+	case ast.BoolType:
+		return vBool(false), true
+	case ast.StringType:
+		return vStr(""), true
+	case ast.NullType:
+		return vNull(), true
+	case ast.ListType:
+		return vList(), true
+	case ast.OptionType:
+		return vNone(), true
+	case ast.AnyObjectType:
+		return vAnyObj(), true
+	case ast.ObjectType:
+		o := rv{K: "obj", M: map[string]rv{}}
+		for _, f := range tt.ObjFields {
+			z, ok := zeroOf(f.Type)
+			if !ok {
+				return rv{}, false
+			}
+			o.M[f.FieldName.Ident()] = z
+		}
+		return o, true
+	}
+	return rv{}, false
+}
+
 // instances returns the type instances of DESIGN.md §3 C18 (plus [range] and {r: range}, which carry
 // the `to_json`-of-a-range case of Appendix A.36). thorough adds larger and seed-chosen receivers.
 func instances(tier string, seed uint64) []inst {
@@ -50,10 +90,29 @@ func instances(tier string, seed uint64) []inst {
 		{"[{a:?int}]", tList(tObj("a", tOpt(tInt()))), []rv{vList(), vList(vObj("a", vNone())), vList(vObj("a", vSome(vInt(1))), vObj("a", vNone()))}},
 		{"{a:?int,b:str}", tObj("a", tOpt(tInt()), "b", tStr()), []rv{vObj("a", vSome(vInt(2)), "b", vStr("")), vObj("a", vNone(), "b", vStr("x"))}},
 		{"{o:?str,l:[?int]}", tObj("o", tOpt(tStr()), "l", tList(tOpt(tInt()))), []rv{vObj("o", vSome(vStr("s")), "l", vList()), vObj("o", vNone(), "l", vList(vSome(vInt(1)), vNone()))}},
+		// element / payload / field types that are objects with several, differently typed fields: the
+		// members whose parameter is the element type (push, push_front, insert, contains, concat,
+		// unwrap_or) and the assignment of such a field take a whole object as their argument
+		{"[{a:int,b:str}]", tList(objABt()), []rv{vList(), vList(objAB(1, "x")), vList(objAB(1, "x"), objAB(2, ""), objAB(0, "y"))}},
+		{"?{s:str,n:int,t:bool}", tOpt(tObj("s", tStr(), "n", tInt(), "t", tBool())), []rv{vNone(), vSome(vObj("s", vStr("k"), "n", vInt(4), "t", vBool(true)))}},
+		{"{p:{a:int,b:str},l:[{a:int,b:str}]}", tObj("p", objABt(), "l", tList(objABt())), []rv{vObj("p", objAB(3, "z"), "l", vList(objAB(1, "x")))}},
 		{"null", tNull(), []rv{vNull()}},
 		{"fn", tFn(tInt()), []rv{vFn()}},
 	}
 	out = append(out, collisionInstances()...)
+	// the value the runtimes make up themselves for a type (the start value of a singleton the host
+	// does not provide) is a receiver of every instance that has one: see origins "zero*"
+	for i := range out {
+		if z, ok := zeroOf(out[i].T); ok && typeText(out[i].T) != "" && len(memberTable(out[i].T)) > 0 {
+			have := false
+			for _, v := range out[i].Vars {
+				have = have || eq(v, z)
+			}
+			if !have {
+				out[i].Vars = append([]rv{z}, out[i].Vars...)
+			}
+		}
+	}
 	for i := range out {
 		if out[i].Name == "{?}" {
 			// an any-object that holds empty options, a null and a list with an empty option
@@ -531,7 +590,7 @@ type payload struct {
 	Member  string `json:"member,omitempty"`
 	Args    []rv   `json:"args,omitempty"`
 	Form    string `json:"form,omitempty"`   // let | stmt | bound | chain
-	Origin  string `json:"origin,omitempty"` // how the receiver is constructed: "" literal | json | cast | loop | as | fresh
+	Origin  string `json:"origin,omitempty"` // how the receiver is constructed: "" literal | json | cast | loop | as | fresh | zero | zerof | zerox
 	Print   bool   `json:"print,omitempty"`
 	// Twin: the program binds a second, untouched value `twin` built like the receiver and probes it last
 	Twin bool   `json:"twin,omitempty"`
@@ -664,6 +723,20 @@ func originsOf(recv rv) []string {
 // of a helper function, and the receiver, the twin and one more value made after the operation are
 // three products of that one construction site: every evaluation of a literal has to hand out a
 // value of its own, whatever was done to the products of earlier evaluations.
+// zeroOriginsOf lists the producers of a value the program never writes down: the start value the
+// runtime makes up for a singleton the host does not provide (each runtime has its own table of
+// them). "zero" = the receiver is a singleton of the instance's type, "zerof" = a field of a singleton
+// object (the start value of the object is made field by field), "zerox" = the singleton arrives
+// through an extraction parameter of the function that performs the operation. Only the receiver that
+// is the start value of its type can be produced like this.
+func zeroOriginsOf(in inst, recv rv) []string {
+	z, ok := zeroOf(in.T)
+	if !ok || typeText(in.T) == "" || !eq(z, recv) {
+		return nil
+	}
+	return []string{"zero", "zerof", "zerox"}
+}
+
 func extraOriginsOf(in inst, recv rv) []string {
 	if typeText(in.T) == "" || !literalOK(recv) {
 		return nil
@@ -709,6 +782,16 @@ func bindValue(c *litCtx, name string, in inst, recv rv, origin string) (out []s
 	}
 	literal := func(name string) []string { return literalIn(c, name) }
 	switch origin {
+	case "zero":
+		c.tops = append(c.tops, fmt.Sprintf("$Z%s = %s;", name, tt))
+		return []string{fmt.Sprintf("let %s: %s = $Z%s;", name, tt, name)}, 0
+	case "zerof":
+		c.tops = append(c.tops, fmt.Sprintf("$Z%s = { n: int, v: %s };", name, tt))
+		return []string{fmt.Sprintf("let %s: %s = $Z%s.v;", name, tt, name)}, 0
+	case "zerox":
+		c.tops = append(c.tops, fmt.Sprintf("$Z%s = %s;", name, tt))
+		c.params = append(c.params, fmt.Sprintf("%s: $Z%s", name, name))
+		return nil, 0
 	case "fresh":
 		if len(c.fns) == 0 {
 			fc := &litCtx{}
@@ -764,10 +847,19 @@ func renderable(t ast.Type) bool {
 
 func assemble(c *litCtx, body []string) string {
 	var sb strings.Builder
+	for _, f := range c.tops {
+		sb.WriteString(f + "\n")
+	}
 	for _, f := range c.fns {
 		sb.WriteString(f + "\n")
 	}
-	sb.WriteString("fn main() {\n")
+	if len(c.params) > 0 {
+		// the program proper is the body of a function that receives the singletons through
+		// extraction parameters
+		sb.WriteString("fn op(" + strings.Join(c.params, ", ") + ") {\n")
+	} else {
+		sb.WriteString("fn main() {\n")
+	}
 	for _, l := range c.pre {
 		sb.WriteString("    " + l + "\n")
 	}
@@ -781,6 +873,9 @@ func assemble(c *litCtx, body []string) string {
 		sb.WriteString("    }\n")
 	}
 	sb.WriteString("}\n")
+	if len(c.params) > 0 {
+		sb.WriteString("fn main() {\n    op();\n}\n")
+	}
 	return sb.String()
 }
 
